@@ -181,8 +181,8 @@ func randFamilyOn(backend string) bool {
 		return true
 	}
 	switch backend {
-	case "spv", "hlsl", "glsl":
-		return true // clean on the unchanged tree for seeds 1-3 after triage (DESIGN.md 13.4, 13.5)
+	case "spv", "hlsl", "glsl", "msl":
+		return true // clean on the unchanged tree for seeds 1-3 after triage (DESIGN.md 13.4, 13.5); msl: under restrict / unchecked
 	}
 	return false
 }
